@@ -3,7 +3,7 @@
    the model uses, is re-checked on every run over the regenerated Generated.v: tie B.) *)
 From Coq Require Import List NArith Bool.
 Import ListNotations.
-From TP Require Import Core Path Unix Win Spec UnixProofs WinProofs C04Proofs C17Proofs.
+From TP Require Import Core Path Unix Win Spec UnixProofs WinProofs C04Proofs C17Proofs Utf8 Utf8Proofs Utf8Chars.
 
 Theorem C17_tables : u_forbidden = forbidden_unix /\ w_forbidden = forbidden_windows
   /\ forbidden_unix = [47; 0]%N /\ forbidden_windows = [92; 47; 58; 63; 42; 34; 62; 60; 124; 0]%N.
@@ -29,8 +29,23 @@ Print Assumptions C17_windows_path.
 Print Assumptions C17_component.
 Print Assumptions C17_invalid_verdict_implies_invalid.
 Print Assumptions C17_invalid_path_rejected.
-(* C17_utf8_partial: that the UTF-8 predicates (which consult the char tables) agree with the byte predicates is
-   a generated-table obligation (chars table = bytes table, all < 128) plus correspondence on the utf8 families. *)
+(* the UTF-8 twins consult tables of forbidden CHARS on the characters of a name, the byte types tables of
+   forbidden bytes on its bytes: on well-formed UTF-8 the two verdicts are the same for every ASCII table
+   (Utf8Chars.v: a multi-byte character has a code point >= 128 and only bytes >= 128), and the tables
+   regenerated from the source are ASCII *)
+Theorem C17_utf8_chars : forall (T l : list N), (forall y, In y T -> (y < 128)%N) -> Valid l ->
+  forallb (fun c => negb (mem_b c T)) (chars l) = name_ok T l.
+Proof. intros T l HT HV. exact (name_ok_chars T l HT HV). Qed.
+Theorem C17_tables_ascii :
+  (forall y, In y forbidden_unix -> (y < 128)%N) /\ (forall y, In y forbidden_windows -> (y < 128)%N).
+Proof. exact forbidden_tables_ascii. Qed.
+Print Assumptions C17_utf8_chars.
+Print Assumptions C17_tables_ascii.
+Example C17_utf8_example : chars [97;195;169;226;130;172;240;159;140;186;58] = [97; 233; 8364; 127802; 58]%N      (* a e-acute euro blossom : *)
+  /\ Valid [97;195;169;226;130;172;240;159;140;186;58].
+Proof. split; [vm_compute; reflexivity|]. apply utf8_valid_iff. vm_compute. reflexivity. Qed.
+(* C17_utf8_partial: that the char tables in the source ARE the byte tables is a generated-table obligation
+   (tie B); that the UTF-8 predicates are called with them is correspondence on the utf8 families (same.c17). *)
 Example C17_example : w_is_valid [67;58;92;97;124;98] = false /\ w_is_valid [92;92;63;92;67;58;92;97] = true
                       /\ u_is_valid [47;97;0] = false /\ u_is_valid [47;97;58;92] = true.
 Proof. vm_compute. repeat split. Qed.
